@@ -187,6 +187,11 @@ def run_check(mod, tier, seed):
         if v['key'] in known_keys:
             known_hit.setdefault(v['key'], v)
 
+    if infra and new_viol and not infra.startswith('timeout'):
+        # the harness itself fell over AFTER the real code had already violated the property on some input (typically it
+        # could not digest a malformed object the changed code handed back): the violations found stand
+        rep.notes.append('harness stopped early: ' + infra[-600:])
+        infra = None
     status = 0
     replay_path = None
     if infra:
